@@ -159,21 +159,37 @@ def main():
         hit('sync_after')
         return r
 
-    def on_acquired():
-        if state['in_alloc']:
-            hit('alloc_inside')
-        elif state['in_sync']:
+    orig_add_to = RS.ResultStoreParallel._add_to_store
+
+    def _add_to_store(self, value, store, idx=None):
+        # called with an explicit idx only from sync(), inside its critical section
+        if idx is not None and state['in_sync']:
             hit('sync_inside')
+        return orig_add_to(self, value, store, idx=idx)
+
+    class LogProxy:
+        """ results_store's logger: preallocate() logs the granted range INSIDE its
+        critical section, after the pointer has been advanced """
+        def __init__(self, real):
+            self._real = real
+
+        def debug(self, msg, *a, **k):
+            if state['in_alloc'] and 'allocated range' in str(msg):
+                hit('alloc_inside')
+            return self._real.debug(msg, *a, **k)
+
+        def __getattr__(self, name):
+            return getattr(self._real, name)
 
     TK.SearchTask.execute = execute
     TK.SearchTask._simple_search = _simple_search
     TK.SearchTask.put_result = put_result
     RS.ResultStoreParallel.preallocate = preallocate
     RS.ResultStoreParallel.sync = sync
+    RS.ResultStoreParallel._add_to_store = _add_to_store
+    RS.log = LogProxy(RS.log)
     os.path.getsize = getsize
-    wrapper = LockWrapper(RS.RESULTS_STORE_LOCK, on_acquired)
-    RS.RESULTS_STORE_LOCK = wrapper
-    SR.RESULTS_STORE_LOCK = wrapper
+    real_lock = RS.RESULTS_STORE_LOCK
 
     def searcher():
         fs = FileSearcher(max_parallel_tasks=plan['workers'])
@@ -196,9 +212,9 @@ def main():
             procs = kids
         threads = sorted(t.name for t in threading.enumerate()
                          if t is not threading.main_thread())
-        store_free = wrapper.real.acquire(False)
+        store_free = real_lock.acquire(False)
         if store_free:
-            wrapper.real.release()
+            real_lock.release()
         coll_free = SR.RESULTS_COLLECTION_LOCK.acquire(False)
         if coll_free:
             SR.RESULTS_COLLECTION_LOCK.release()
